@@ -37,6 +37,8 @@ LEVEL_TEXT = (
     "yield its own rows within its declared bounds.  The executed row count and row keys of the root are held against "
     "the declared bounds / columns; a user-defined empty-invariant RowFilter relying on the base-class bounds is applied to "
     "every iteration root; every second program is first built and inspected over twin leaves in the same engines."
+    "  A fifth of the cases are (base tree, final operation, preferred-engine options): declared columns of every "
+    "node of the result against the decoded sub-tree, executed rows of the result against its bounds."
 )
 LEVEL_NOTE = "trusts: decode() of library trees through public dataclass fields, reference evaluator; leaves' declared bounds are truthful by construction"
 RULE = (
